@@ -212,6 +212,63 @@ class LocalIndex:
         raise Inconclusive("ambiguous free function %s -> %s" % ("::".join(segs), [h[1].name for h in hits]))
 
 
+def closure_upvar_count(f):
+    """Number of captured places a closure body reads (max field index of _1 / *_1, plus one)."""
+    n = getattr(f, "_upvars", None)
+    if n is not None:
+        return n
+    n = 0
+
+    def visit_place(pl):
+        nonlocal n
+        if pl.local != 1:
+            return
+        proj = pl.proj
+        if proj and proj[0][0] == "deref":
+            proj = proj[1:]
+        if proj and proj[0][0] == "field":
+            n = max(n, proj[0][1] + 1)
+
+    def visit_operand(op):
+        if op[0] in ("copy", "move"):
+            visit_place(op[1])
+
+    def visit_rvalue(rv):
+        k = rv[0]
+        if k == "use":
+            visit_operand(rv[1])
+        elif k in ("ref", "rawptr"):
+            visit_place(rv[2])
+        elif k in ("discriminant", "len"):
+            visit_place(rv[1])
+        elif k == "binop":
+            visit_operand(rv[2]); visit_operand(rv[3])
+        elif k == "unop":
+            visit_operand(rv[2])
+        elif k == "cast":
+            visit_operand(rv[1])
+        elif k == "aggregate":
+            for x in rv[2]:
+                visit_operand(x[1] if isinstance(x, tuple) and len(x) == 2 and isinstance(x[0], str) and x[0] not in ("copy", "move", "const") else x)
+        elif k == "repeat":
+            visit_operand(rv[1])
+    for b in f.blocks.values():
+        for st in b.stmts:
+            if st[0] == "assign":
+                visit_place(st[1])
+                visit_rvalue(st[2])
+        t = b.term
+        if t[0] == "call":
+            for a in t[3]:
+                visit_operand(a)
+        elif t[0] == "drop":
+            visit_place(t[1])
+        elif t[0] == "switch":
+            visit_operand(t[1])
+    f._upvars = n
+    return n
+
+
 def type_match(impl_ty, call_ty):
     """Does the impl's self type (source text, may mention generic params) match the concrete type
     printed at the call site?  Compared on last path segments, recursively over generic args."""
@@ -945,8 +1002,12 @@ class Interp:
                 return BufObj("array", SBytes([bytes([x]) if isinstance(x, int) else sb.SymByte(x) for x in vals]))
             return Agg("array", ty, vals)
         if kind[0] == "closure":
-            vals = [self.eval_operand(frame, o) for _, o in rv[2]]
-            return Agg("closure", kind[1], vals, [n for n, _ in rv[2]])
+            ops = [o for _, o in rv[2]]
+            body = self.idx.closures.get(kind[1])
+            if body is not None and closure_upvar_count(body) > len(ops):
+                ops = self.reconstruct_captures(frame, kind[1], body, ops)
+            vals = [self.eval_operand(frame, o) for o in ops]
+            return Agg("closure", kind[1], vals, None)
         if kind[0] == "coroutine":
             vals = [self.eval_operand(frame, o) for _, o in rv[2]]
             body = self.prog.funcs.get(f.name + "::{closure#0}")
@@ -990,6 +1051,100 @@ class Interp:
             # tuple struct / unit struct
             return Agg("struct", "::".join(segs), vals)
         raise Inconclusive("aggregate %r" % (kind,))
+
+    def reconstruct_captures(self, frame, cty, body, ops):
+        """rustc prints a closure aggregate by zipping the captured *places* with the *variables*
+        mentioned, so a closure capturing several disjoint fields of one variable loses operands in the
+        dump.  Recover them from (a) the capture types the closure body declares, (b) the reference
+        temporaries rustc materialises right before the aggregate and (c) the field types of the
+        captured struct.  Anything ambiguous is INCONCLUSIVE."""
+        f = frame.func
+        need = closure_upvar_count(body)
+        # capture types from the body: (_1.k: T) or ((*_1).k: T)
+        tys = {}
+        def scan_place(pl):
+            if pl.local != 1:
+                return
+            proj = pl.proj
+            if proj and proj[0][0] == "deref":
+                proj = proj[1:]
+            if proj and proj[0][0] == "field":
+                tys.setdefault(proj[0][1], proj[0][2])
+        for b in body.blocks.values():
+            for st in b.stmts:
+                if st[0] == "assign":
+                    scan_place(st[1])
+                    rv = st[2]
+                    if rv[0] == "use" and rv[1][0] in ("copy", "move"):
+                        scan_place(rv[1][1])
+                    elif rv[0] in ("ref", "rawptr"):
+                        scan_place(rv[2])
+            if b.term[0] == "call":
+                for a in b.term[3]:
+                    if a[0] in ("copy", "move"):
+                        scan_place(a[1])
+            elif b.term[0] == "drop":
+                scan_place(b.term[1])
+        # locate the aggregate statement and the ref temporaries assigned just before it
+        where = None
+        for bb, blk in f.blocks.items():
+            for i, st in enumerate(blk.stmts):
+                if st[0] == "assign" and st[2][0] == "aggregate" and st[2][1][0] == "closure" and st[2][1][1] == cty:
+                    where = (blk, i)
+        if where is None:
+            raise Inconclusive("closure aggregate %s not found for capture reconstruction" % cty)
+        blk, idx = where
+        ref_temps = []      # (local, place)
+        for st in blk.stmts[:idx]:
+            if st[0] == "assign" and not st[1].proj and st[2][0] == "ref":
+                ref_temps.append((st[1].local, st[2][2], st[2][1]))
+        used = set()
+        for o in ops:
+            if o[0] in ("copy", "move") and not o[1].proj:
+                used.add(o[1].local)
+        # base local of the by-value captures
+        base = None
+        for o in ops:
+            if o[0] in ("copy", "move") and o[1].proj and o[1].proj[-1][0] == "field":
+                base = Place(o[1].local, o[1].proj[:-1])
+        taken = {o[1].proj[-1][1] for o in ops if o[0] in ("copy", "move") and o[1].proj and o[1].proj[-1][0] == "field"}
+        out = list(ops)
+        for k in range(len(ops), need):
+            ty = (tys.get(k) or "").strip()
+            if not ty:
+                raise Inconclusive("capture %d of %s has no declared type" % (k, cty))
+            if ty.startswith("&"):
+                cand = [(l, pl) for (l, pl, mut) in ref_temps if l not in used and f.locals.get(l, "").replace("'_ ", "").strip() == ty.replace("'_ ", "").strip()]
+                if not cand:
+                    raise Inconclusive("no reference temporary for capture %d (%s) of %s" % (k, ty, cty))
+                l, pl = cand[0]
+                used.add(l)
+                out.append(("copy", Place(l)))
+                if base is None and pl.proj and pl.proj[-1][0] == "field":
+                    base = Place(pl.local, pl.proj[:-1])
+                if pl.proj and pl.proj[-1][0] == "field":
+                    taken.add(pl.proj[-1][1])
+                continue
+            if base is None:
+                raise Inconclusive("cannot locate the captured variable of %s" % cty)
+            bty = self.place_type(f, base)
+            from .models.serde import struct_decl
+            decl = struct_decl(self, base_type_name(bty)[-1]) if bty else None
+            if not decl:
+                raise Inconclusive("captured variable of %s is not a known struct (%s)" % (cty, bty))
+            pick = None
+            for j, (fname, fty) in enumerate(decl):
+                if j in taken or (taken and j < max(taken) and False):
+                    continue
+                if type_match(fty, ty) and type_match(ty, fty):
+                    pick = j
+                    break
+            if pick is None:
+                raise Inconclusive("no field of %s matches capture %d (%s) of %s" % (bty, k, ty, cty))
+            taken.add(pick)
+            out.append(("move", Place(base.local, base.proj + (("field", pick, ty),))))
+        self.w.notes.append("reconstructed %d captures of %s" % (need - len(ops), cty))
+        return out
 
     def struct_field_order(self, segs):
         name = segs[-1]
@@ -1055,6 +1210,12 @@ class Interp:
             f = self.idx.closures.get(fv.ty)
             if f is None:
                 raise Inconclusive("closure body for %s" % fv.ty)
+            need = closure_upvar_count(f)
+            if need > len(fv.fields):
+                # rustc's MIR printer zips the captured places with the *variables* mentioned, so a closure
+                # capturing several disjoint fields of one variable is printed with too few operands
+                raise Inconclusive("closure %s captures %d places but the MIR dump prints %d (disjoint field captures)"
+                                   % (fv.ty, need, len(fv.fields)))
             pty = f.params[0][1].strip()
             if pty.startswith("&"):
                 recv = Ref(ValLoc(fv), pty.startswith("&mut"))
